@@ -6,6 +6,7 @@ import (
 	"bytes"
 	"encoding/json"
 	"fmt"
+	"math/rand"
 	"sync"
 
 	"verifharness/jsonread"
@@ -75,9 +76,47 @@ type histState struct {
 	decoded  []lib.Patch
 	patchSig []string
 	first    sync.Map // call signature -> first result
+	// results handed out earlier stay what they were: the slices returned by the last calls are kept
+	// together with a copy and compared again later (a result that aliases pooled or input memory changes)
+	keptMu sync.Mutex
+	kept   []keptResult
+}
+
+type keptResult struct {
+	sig  string
+	out  []byte
+	copy []byte
+}
+
+func (h *histState) keep(sig string, out []byte) {
+	if out == nil {
+		return
+	}
+	h.keptMu.Lock()
+	defer h.keptMu.Unlock()
+	h.kept = append(h.kept, keptResult{sig, out, append([]byte{}, out...)})
+	if len(h.kept) > 256 {
+		h.kept = h.kept[len(h.kept)-128:]
+	}
+}
+
+// earlierResultsIntact reports a result of an earlier call whose bytes have changed since it was returned.
+func (h *histState) earlierResultsIntact() string {
+	h.keptMu.Lock()
+	defer h.keptMu.Unlock()
+	for _, k := range h.kept {
+		if !bytes.Equal(k.out, k.copy) {
+			return fmt.Sprintf("the result of an earlier call %s changed after it was returned: was %q, is now %q", k.sig, k.copy, k.out)
+		}
+	}
+	return ""
 }
 
 var hs histState
+
+// the buffers are spelled with insignificant white space (seeded): a callee that compacts or
+// rewrites its input in place changes them
+var histSpelling = jsonread.Spelling{Rnd: rand.New(rand.NewSource(20260930)), WsOnly: true}
 
 func malformedOr(raw json.RawMessage, bad string) ([]byte, error) {
 	var t struct {
@@ -93,7 +132,7 @@ func malformedOr(raw json.RawMessage, bad string) ([]byte, error) {
 	if err != nil {
 		return nil, err
 	}
-	return jsonread.Canonical.Render(v), nil
+	return histSpelling.RenderDoc(v), nil
 }
 
 // patchSignature is a deep description of a decoded Patch: for every operation the member names,
@@ -136,7 +175,7 @@ func (h *histState) init(ln *histLine) {
 	for _, p := range ln.Patches {
 		text := []byte(`[{"op":`)
 		if p.OK {
-			t, _, err := renderPatch(jsonread.Canonical, p.Ops)
+			t, _, err := renderPatch(histSpelling, p.Ops)
 			if err != nil {
 				h.err = err
 				return
@@ -252,6 +291,17 @@ func (e *engine) checkHistoryLine(worker int, raw []byte) error {
 					resKey = "ok:" + got.CanonKey() // new members may come in any order: same VALUE
 				}
 			} else {
+				if c.Cls == "dc" {
+					// outside the stated domain of the operation semantics: the result is not specified, only its
+					// independence of history (below) and the integrity of the inputs are
+					resKey = fmt.Sprintf("dc:%v:%s", r.err == nil, r.out)
+					if prev, loaded := hs.first.LoadOrStore(sig, resKey); loaded && prev.(string) != resKey {
+						obs["first_result"] = prev
+						e.rep.Report(viol("history-dependent", sig+" returned something else than the first time the identical call was made", obs))
+					}
+					hs.keep(sig, r.out)
+					return
+				}
 				if r.err == nil {
 					e.rep.Report(viol("result", sig+" succeeded, its arguments determine a failure ("+c.Cls+")", obs))
 					return
@@ -264,6 +314,7 @@ func (e *engine) checkHistoryLine(worker int, raw []byte) error {
 				resKey = "err"
 			}
 		}
+		hs.keep(sig, r.out)
 		// the same call gives the same result (bytes) wherever it occurs in whatever history
 		if prev, loaded := hs.first.LoadOrStore(sig, resKey); loaded && prev.(string) != resKey {
 			obs["first_result"] = prev
@@ -279,6 +330,10 @@ func (e *engine) checkHistoryLine(worker int, raw []byte) error {
 			judge(i, c, r)
 			if s := hs.inputsIntact(); s != "" {
 				e.rep.Report(viol("input-modified", fmt.Sprintf("after call %d (%s): %s", i, c.API, s), map[string]interface{}{"api": c.API}))
+				return nil
+			}
+			if s := hs.earlierResultsIntact(); s != "" {
+				e.rep.Report(viol("result-changed-later", fmt.Sprintf("after call %d (%s): %s", i, c.API, s), map[string]interface{}{"api": c.API}))
 				return nil
 			}
 		}
@@ -311,6 +366,12 @@ func (e *engine) checkHistoryLine(worker int, raw []byte) error {
 		if s := hs.inputsIntact(); s != "" {
 			e.rep.Report(viol("input-modified", s, nil))
 			return nil
+		}
+		if ln.Procs <= 1 {
+			if s := hs.earlierResultsIntact(); s != "" {
+				e.rep.Report(viol("result-changed-later", s, nil))
+				return nil
+			}
 		}
 	}
 	e.rep.Nontrivial(string(raw[:0]) + fmt.Sprint(callSigs(ln.Calls)))
